@@ -8,10 +8,25 @@ use rust_dsymbols::geometry::matrix::{Matrix, RowEchelonMatrix};
 use rust_dsymbols::geometry::modular_solver;
 use rust_dsymbols::geometry::prime_residue_classes::PrimeResidueClass;
 use rust_dsymbols::geometry::traits::Array2d;
-use rust_dsymbols::geometry::vec_matrix::VecMatrix;
+use rust_dsymbols::geometry::vec_matrix::{RowEchelonVecMatrix, VecMatrix};
 use serde_json::{json, Value};
 
 type F61 = PrimeResidueClass<61>;
+thread_local! { static DEFERRED: std::cell::RefCell<Vec<(Value, BigInt)>> = std::cell::RefCell::new(Vec::new()); }
+
+/// emits the refused `modsolve` events with the common factor r of their determinants (see `emit_all`)
+fn flush_deferred(sink: &mut Sink) {
+    fn gcd(a: &BigInt, b: &BigInt) -> BigInt { let (mut x, mut y) = (a.magnitude().clone(), b.magnitude().clone()); while !y.is_zero() { let r = &x % &y; x = y; y = r; } BigInt::from(x) }
+    let evs = DEFERRED.with(|d| std::mem::take(&mut *d.borrow_mut()));
+    let mut g = BigInt::zero();
+    for (_, d) in &evs { g = gcd(&g, d); }
+    for (mut e, d) in evs {
+        e.as_object_mut().unwrap().remove("deferred");
+        e["r"] = big(&g);
+        e["q"] = big(&(if g.is_zero() { BigInt::zero() } else { &d / &g }));
+        sink.emit(e);
+    }
+}
 const PRIME: i64 = 3_037_000_493;
 
 fn big(x: &BigInt) -> Value {
@@ -45,7 +60,7 @@ fn emit_all(sink: &mut Sink, m: &Vec<Vec<i64>>, b: &Vec<Vec<i64>>, src: &str) {
     let a = vm_i64(m);
     let bm = vm_i64(b);
     let base = |ev: &str, backend: &str| json!({"ev": ev, "backend": backend, "a": m, "src": src});
-    macro_rules! run { ($e:expr, $body:expr, $fill:expr) => {{ let mut e = $e; pending(&e); match catch($body) { Ok(v) => { $fill(&mut e, v); } Err(msg) => { e["panic"] = json!(msg); } } sink.emit(e); }} }
+    macro_rules! run { ($e:expr, $body:expr, $fill:expr) => {{ let mut e = $e; pending(&e); match catch($body) { Ok(v) => { $fill(&mut e, v); } Err(msg) => { e["panic"] = json!(msg); } } if e.get("deferred").is_none() { sink.emit(e); } }} }
     // --- BigRational
     let aq: VecMatrix<BigRational> = a.to::<BigInt>().to();
     let bq: VecMatrix<BigRational> = bm.to::<BigInt>().to();
@@ -83,13 +98,53 @@ fn emit_all(sink: &mut Sink, m: &Vec<Vec<i64>>, b: &Vec<Vec<i64>>, src: &str) {
             match v {
                 Some(x) => e["out"] = jq(&x),
                 None => {
-                    // witness for "singular modulo the prime": q = det / PRIME, computed here with big integers and verified by the spec
-                    let d = aq.determinant().to_integer();
-                    let p = BigInt::from(PRIME);
-                    if (&d % &p).is_zero() { e["q"] = big(&(&d / &p)); e["out"] = json!([]); } else { e["panic"] = json!("modular solver refused a system that is non-singular modulo its prime"); }
+                    // a refusal is lawful only for a system that is singular modulo the solver's prime.  The prime is a
+                    // private constant of the library; what can be observed is that all refused systems must have a
+                    // common factor r > 1 in their determinants.  The event is deferred until the end of the run, when
+                    // r = gcd of the determinants of all refused systems is known (`flush_deferred`); the spec verifies
+                    // det(A) = q * r and r > 1 (or det(A) = 0).
+                    e["out"] = json!([]);
+                    e["deferred"] = json!(true);
+                    DEFERRED.with(|d| d.borrow_mut().push((e.clone(), aq.determinant().to_integer())));
                 }
             }
         });
+    }
+}
+
+/// hooked: the elimination itself.  `RowEchelonVecMatrix::new` is run with recording on; the snapshot after every
+/// column and the final state (multiplier, result, columns, rank, swaps) go to `Trace_C18e`, which judges every
+/// state by the invariants of `Echelon.tla` and every step as a step of that machine.
+fn echelon_runs(sink: &mut Sink, m: &Vec<Vec<i64>>, src: &str) {
+    use rust_dsymbols::geometry::traits::Entry;
+    fn run_one<T: Entry + Clone>(sink: &mut Sink, m: &Vec<Vec<i64>>, src: &str, backend: &str, a: &VecMatrix<T>, j: &dyn Fn(&VecMatrix<T>) -> Value) {
+        let mut e = json!({"ev": "echelon_run", "backend": backend, "a": m, "src": src});
+        pending(&e);
+        rust_dsymbols::verif::record(true);
+        let r = catch(|| RowEchelonVecMatrix::new(a));
+        rust_dsymbols::verif::record(false);
+        match r {
+            Ok(re) => {
+                let (s, u, cols, rank, swaps) = re.verif_state();
+                e["s"] = j(s); e["u"] = j(u); e["cols"] = json!(cols); e["rank"] = json!(rank); e["swaps"] = json!(swaps);
+                e["steps"] = json!(re.verif_steps().iter().map(|(c, r, w, u, s)| json!({"col": c, "row": r, "swaps": w, "u": j(u), "s": j(s)})).collect::<Vec<_>>());
+            }
+            Err(msg) => { e["panic"] = json!(msg); }
+        }
+        sink.emit(e);
+    }
+    let a = vm_i64(m);
+    let aq: VecMatrix<BigRational> = a.to::<BigInt>().to();
+    run_one(sink, m, src, "bigrational", &aq, &|x| jq(x));
+    let af: VecMatrix<F61> = a.to();
+    run_one(sink, m, src, "f61", &af, &|x| jf(x));
+    if in_i64_box(m, &vec![]) { run_one(sink, m, src, "i64", &a, &|x| ji(x)); }
+    // the transpose is what null_space() eliminates
+    if m.len() != m[0].len() {
+        let t: Vec<Vec<i64>> = (0..m[0].len()).map(|j| (0..m.len()).map(|i| m[i][j]).collect()).collect();
+        let at = vm_i64(&t);
+        let atq: VecMatrix<BigRational> = at.to::<BigInt>().to();
+        run_one(sink, &t, src, "bigrational", &atq, &|x| jq(x));
     }
 }
 
@@ -164,12 +219,16 @@ pub fn replay(args: &[String]) {
     let cases = read_lines(&args[0]);
     let out = arg(args, "--out").unwrap();
     let mut sink = Sink::create(&out);
+    let mut esink = arg(args, "--echelon").map(|p| Sink::create(&p));
     for c in &cases {
         let m: Vec<Vec<i64>> = c["a"].as_array().unwrap().iter().map(|r| r.as_array().unwrap().iter().map(|x| x.as_i64().unwrap()).collect()).collect();
         let b: Vec<Vec<i64>> = c["b"].as_array().unwrap().iter().map(|r| r.as_array().unwrap().iter().map(|x| x.as_i64().unwrap()).collect()).collect();
         emit_all(&mut sink, &m, &b, "tlc");
         echelon_fixed(&mut sink, &m, &b);
+        if let Some(es) = esink.as_mut() { echelon_runs(es, &m, "tlc"); }
     }
+    if let Some(es) = esink.as_mut() { es.flush(); }
+    flush_deferred(&mut sink);
     sink.flush();
     println!("{}", json!({"cases": cases.len(), "events": sink.n}));
 }
@@ -178,6 +237,7 @@ pub fn drive(args: &[String]) {
     let out = arg(args, "--out").unwrap();
     let n = arg_usize(args, "--matrices", 150);
     let mut sink = Sink::create(&out);
+    let mut esink = arg(args, "--echelon").map(|p| Sink::create(&p));
     let mut rng = rng(18);
     // the prime field: canonical residues incl. negative multiples of the modulus, and the field operations
     let mut ints: Vec<i64> = vec![0, 1, -1, 60, 61, -61, 62, -60, 122, -122, 61 * 61, -61 * 61, i32::MAX as i64, i32::MIN as i64 + 1, 1_000_000_007, -1_000_000_007];
@@ -218,6 +278,7 @@ pub fn drive(args: &[String]) {
         }
         emit_all(&mut sink, &m, &b, "random");
         if nr <= 4 && nc <= 4 { echelon_fixed(&mut sink, &m, &b); }
+        if (nr <= 4 && nc <= 4) || lim <= 100 { if let Some(es) = esink.as_mut() { echelon_runs(es, &m, "random"); } }
     }
     // systems singular modulo the solver's prime: det = +-PRIME * k
     for k in [1i64, -1, 2, 3] {
@@ -261,6 +322,8 @@ pub fn drive(args: &[String]) {
             sink.emit(e);
         }
     }
+    if let Some(es) = esink.as_mut() { es.flush(); }
+    flush_deferred(&mut sink);
     sink.flush();
     println!("{}", json!({"events": sink.n}));
 }
